@@ -845,7 +845,7 @@ func init() {
 			r.RequireMin("VALIDALL success returns of the picture processor", va, 1)
 			ngt := runNUMGATE(c, r, "NUMGATE")
 			r.RequireMin("NUMGATE ParseFloat calls in $number", ngt, 1)
-			fb := runF2I(c, r, "F2I", c.fnsNamed(r, "jlib.FormatBase"))
+			fb := runF2I(c, r, "F2I", withCallees(c, c.fnsNamed(r, "jlib.FormatBase"), 2))
 			r.RequireMin("F2I float-to-integer conversions in $formatBase", fb, 2)
 			e := newFIN(c, c.G)
 			// the functions bound to the number built-ins, whatever they are called
@@ -1089,9 +1089,8 @@ func init() {
 				}
 				// everything in the files that implement function values and scopes, and the
 				// evaluator functions that build or apply function values
-				switch exceptionKey(s.f) {
-				case "(*jsonata.transformationCallable).updateEntries", "(*jsonata.transformationCallable).deleteEntries":
-					return false // writes to the data being transformed: C07's subject, not scope or function state
+				if strings.HasPrefix(s.kind, "reflect.") {
+					return false // a write through a reflect.Value into the data being transformed: C07's subject, not scope or function state
 				}
 				switch filepath.Base(c.W.Fset.Position(exceptionRoot(s.f).Pos()).Filename) {
 				case "callable.go", "env.go":
@@ -1172,4 +1171,32 @@ func init() {
 			r.Assume("the input string is finite; regexp.Compile, strconv.ParseFloat and utf8/utf16 functions terminate and do not panic")
 		},
 	})
+}
+
+// withCallees: the functions plus the module functions of the same package they call
+// statically, to the given depth (a conversion or check that moved into a small helper).
+func withCallees(c *Ctx, fns []*ssa.Function, depth int) []*ssa.Function {
+	seen := map[*ssa.Function]bool{}
+	var out []*ssa.Function
+	var walk func(f *ssa.Function, d int)
+	walk = func(f *ssa.Function, d int) {
+		if f == nil || seen[f] || len(f.Blocks) == 0 {
+			return
+		}
+		seen[f] = true
+		out = append(out, f)
+		if d == 0 {
+			return
+		}
+		for _, ci := range callsIn(f) {
+			if g := ci.Common().StaticCallee(); g != nil && c.G.InSc[g] && g.Pkg == f.Pkg {
+				walk(g, d-1)
+			}
+		}
+	}
+	for _, f := range fns {
+		walk(f, depth)
+	}
+	sortFns(out)
+	return out
 }
